@@ -9,7 +9,7 @@
     products rows*cols*spp*bytes*frames of u16/u16/u16/u16/u32 values can
     exceed 2^64 only for images of more than 2^64 samples, which cannot be
     stored; that overflow is outside the model (recorded assumption). *)
-From DicomV Require Export Base.Prelude.
+From DicomV Require Export Base.Endian.
 
 Record img := {
   rows : N; cols : N; spp : N;        (* u16 attributes *)
@@ -102,7 +102,6 @@ Definition out_frame_size (i : img) : N := frame_samples i * bytes_per_sample (b
 Definition stored_ok (i : img) : Prop :=
   if bits i =? 1 then div_ceil (frame_samples i * nframes i) 8 <= len (data i)
   else out_frame_size i * nframes i <= len (data i).
-Definition wf_bytesb (b : bytes) : bool := forallb (fun x => x <? 256) b.
 
 (** Correspondence case. *)
 Definition out_eqb (a b : outcome bytes) : bool :=
@@ -113,12 +112,18 @@ Definition out_eqb (a b : outcome bytes) : bool :=
   | _, _ => false
   end.
 
-(* (rows, cols, spp, bits, frames, data, impl whole result,
+(** How the Pixel Data value is held: [PrimitiveValue::to_bytes] of a numeric
+    value of [k]-byte elements is the little-endian image of its elements
+    (U8: k = 1, the bytes themselves; U16/I16 (what reading VR OW yields):
+    k = 2; U32/I32: 4; U64/I64: 8; signed elements as their two's complement). *)
+Definition value_bytes (k : nat) (vals : list N) : bytes := flat_map (le_bytes k) vals.
+
+(* (rows, cols, spp, bits, frames, element width k, elements of the value, impl whole result,
     [(frame, impl decode_pixel_data_frame, impl frame_data on the whole result)]) *)
 Definition check_case
-  (c : N * N * N * N * N * bytes * outcome bytes * list (N * outcome bytes * outcome bytes)) : bool :=
-  let '(r, co, s, b, nf, d, w, fl) := c in
-  let i := {| rows := r; cols := co; spp := s; bits := b; nframes := nf; data := d |} in
+  (c : N * N * N * N * N * nat * list N * outcome bytes * list (N * outcome bytes * outcome bytes)) : bool :=
+  let '(r, co, s, b, nf, k, vals, w, fl) := c in
+  let i := {| rows := r; cols := co; spp := s; bits := b; nframes := nf; data := value_bytes k vals |} in
   let mw := decode_whole i in
   out_eqb mw w &&
   forallb (fun '(f, pf, fd) =>
